@@ -13,6 +13,7 @@ O_CREAT = 0o100
 OPS = {"remove": ["remove"], "hard": ["link"], "soft": ["link", "--soft"], "reflink": ["dedupe"], "move": ["move"]}
 ERRNOS = {"EIO": 5, "ENOSPC": 28, "EXDEV": 18, "EPERM": 1, "EOPNOTSUPP": 95}
 TMP_RE = re.compile(r"^(.*)\.[A-Za-z0-9]{24}$")
+EXTRA_RE = re.compile(r"/r/h\d+(/|$)")
 
 
 class Scn:
@@ -132,6 +133,8 @@ def project_calls(log, prj, members_abs):
         p1 = e.get("p1")
         p2 = e.get("p2")
         ok = e["ret"] >= 0
+        if (p1 and EXTRA_RE.search(p1)) or (p2 and EXTRA_RE.search(p2)):
+            continue                # the extra groups are not part of the modelled world (see in_tree)
         if c == "KILL":
             # copies in flight when the process dies: what was written so far is what the target holds
             for n1 in list(wbytes):
@@ -233,6 +236,9 @@ def denull(x):
 
 
 def in_tree(rel):
+    # the extra duplicate groups r/h<i>/{p,q} only keep the other worker threads busy: they are not part of the modelled world
+    if re.match(r"r/h\d+(/|$)", rel):
+        return False
     return rel in ("r", "T") or rel.startswith("r/") or rel.startswith("T/")
 
 
